@@ -26,6 +26,7 @@ type (
 		ctx             context.Context
 		mu              sync.Mutex
 		f               http.Flusher
+		done            bool
 		keepAliveTicker *time.Ticker
 	}
 )
@@ -56,7 +57,7 @@ func (t SSE) Do(w http.ResponseWriter, r *http.Request, exec graphql.GraphExecut
 		f:   flusher,
 	}
 
-	defer c.flush()
+	defer c.finish()
 
 	w.Header().Set("Cache-Control", "no-cache")
 	w.Header().Set("Connection", "keep-alive")
@@ -111,7 +112,7 @@ func (t SSE) Do(w http.ResponseWriter, r *http.Request, exec graphql.GraphExecut
 
 	if opErr != nil {
 		resp := exec.DispatchError(ctx, opErr)
-		writeJsonWithSSE(w, resp)
+		c.write(func() { writeJsonWithSSE(w, resp) })
 	} else {
 		responses, ctx := exec.DispatchOperation(ctx, rc)
 		for {
@@ -119,14 +120,13 @@ func (t SSE) Do(w http.ResponseWriter, r *http.Request, exec graphql.GraphExecut
 			if response == nil {
 				break
 			}
-			writeJsonWithSSE(w, response)
-			c.flush()
+			c.write(func() { writeJsonWithSSE(w, response) })
 
 			c.resetTicker(t.KeepAlivePingInterval)
 		}
 	}
 
-	fmt.Fprint(w, "event: complete\n\n")
+	c.write(func() { fmt.Fprint(w, "event: complete\n\n") })
 }
 
 func (c *sseConnection) resetTicker(interval time.Duration) {
@@ -144,10 +144,30 @@ func (c *sseConnection) keepAlive(w io.Writer) {
 			c.keepAliveTicker.Stop()
 			return
 		case <-c.keepAliveTicker.C:
-			fmt.Fprintf(w, ": ping\n\n")
-			c.flush()
+			c.write(func() { fmt.Fprintf(w, ": ping\n\n") })
 		}
 	}
+}
+
+// write runs one complete write to the response and flushes it, serialised against every other
+// writer of this response; nothing is written once the handler is returning.
+func (c *sseConnection) write(f func()) {
+	c.mu.Lock()
+	defer c.mu.Unlock()
+	if c.done {
+		return
+	}
+	f()
+	c.f.Flush()
+}
+
+// finish flushes and marks the response as finished: the keep-alive goroutine must not touch the
+// ResponseWriter after the handler returned.
+func (c *sseConnection) finish() {
+	c.mu.Lock()
+	c.done = true
+	c.f.Flush()
+	c.mu.Unlock()
 }
 
 func (c *sseConnection) flush() {
